@@ -84,6 +84,13 @@ func cmdFunc(args []string) {
 			continue
 		}
 		t2 := time.Now()
+		var obls []*vc.Obligation
+		for _, o := range res.Obls {
+			if o.Kind != "cover" {
+				obls = append(obls, o)
+			}
+		}
+		res.Obls = obls
 		vc.Discharge(res.Obls, cfg)
 		nd := 0
 		for _, o := range res.Obls {
